@@ -103,7 +103,7 @@ def _group_rss_kb(pgid):
     return tot
 
 
-def _run_watched(cmd, cwd, timeout, log, mem_cap_gb, truncate=False):
+def _run_watched(cmd, cwd, timeout, log, mem_cap_gb, truncate=False, env=None):
     """Like _run but also watches the RSS of the process group (ulimit -v makes CBMC abort
     far below its real footprint, so RSS is polled instead)."""
     t0 = time.time()
@@ -112,7 +112,7 @@ def _run_watched(cmd, cwd, timeout, log, mem_cap_gb, truncate=False):
     with open(log, "wb" if truncate else "ab") as lf:
         lf.write(("\n$ " + " ".join(cmd) + "\n").encode())
         lf.flush()
-        p = subprocess.Popen(cmd, cwd=cwd, stdout=lf, stderr=subprocess.STDOUT, env=ENV,
+        p = subprocess.Popen(cmd, cwd=cwd, stdout=lf, stderr=subprocess.STDOUT, env=env or ENV,
                              start_new_session=True)
         while True:
             try:
@@ -452,6 +452,41 @@ def run_harness(h, logdir, seed=0):
     return r
 
 
+def acct_kani_home():
+    """Shadow Kani installation whose library/kani/kani_lib.c is the allocator-accounting
+    variant, so that kani-driver's own CBMC run (used only to obtain a concrete playback test)
+    sees the same allocator model as the deciding run.  Everything else is a symlink to the
+    installed Kani; kani-driver itself is copied because it locates its library directory
+    from its own (resolved) path."""
+    src = os.path.expanduser("~/.kani/kani-0.68.0")
+    home = os.path.join(TARGET, "kani_home_acct")
+    dst = os.path.join(home, "kani-0.68.0")
+    marker = os.path.join(dst, ".ready")
+    if os.path.exists(marker):
+        return home
+    if os.path.exists(home):
+        shutil.rmtree(home)
+    os.makedirs(os.path.join(dst, "bin"))
+    os.makedirs(os.path.join(dst, "library", "kani"))
+    for e in os.listdir(src):
+        if e not in ("bin", "library"):
+            os.symlink(os.path.join(src, e), os.path.join(dst, e))
+    for e in os.listdir(os.path.join(src, "bin")):
+        if e == "kani-driver":
+            shutil.copy2(os.path.join(src, "bin", e), os.path.join(dst, "bin", e))
+        else:
+            os.symlink(os.path.join(src, "bin", e), os.path.join(dst, "bin", e))
+    for e in os.listdir(os.path.join(src, "library")):
+        if e != "kani":
+            os.symlink(os.path.join(src, "library", e), os.path.join(dst, "library", e))
+    for e in os.listdir(os.path.join(src, "library", "kani")):
+        if e != "kani_lib.c":
+            os.symlink(os.path.join(src, "library", "kani", e), os.path.join(dst, "library", "kani", e))
+    shutil.copy(os.path.join(VERIF, "vlib", "kani_lib_acct.c"), os.path.join(dst, "library", "kani", "kani_lib.c"))
+    open(marker, "w").write("ok")
+    return home
+
+
 def kani_playback_test(h, logdir, prop=None):
     """Ask Kani itself (through kani-driver, with traces) for a concrete playback test of a
     failing harness.  Only used after CBMC reported a failure."""
@@ -479,7 +514,10 @@ def kani_playback_test(h, logdir, prop=None):
     if prop:
         # restrict CBMC to the failing property: one trace instead of one per reachability witness
         cmd += ["--property", prop]
-    rc, killed, secs, peak = _run_watched(cmd, crate, max(h.timeout * 4, 1200), log, max(h.mem_gb * 4, 24))
+    env = None
+    if h.acct:
+        env = dict(ENV, KANI_HOME=acct_kani_home())
+    rc, killed, secs, peak = _run_watched(cmd, crate, max(h.timeout * 4, 1200), log, max(h.mem_gb * 4, 24), env=env)
     return parse_playback(open(log, errors="replace").read()), log
 
 
